@@ -124,6 +124,11 @@ pub trait World: Sync {
     fn atomic_on_refusal(&self, _op: &Self::Op) -> bool {
         true
     }
+    /// Whether a level with `frontier_len` states is expanded with one task per (state, operation)
+    /// instead of one task per state (worlds whose single steps are expensive override this).
+    fn wide_expand(&self, frontier_len: usize) -> bool {
+        frontier_len <= 32
+    }
     /// Operations that are probes only: executed and checked but never extend the frontier.
     fn leaf_only(&self, _op: &Self::Op) -> bool {
         false
@@ -415,8 +420,8 @@ pub fn explore<W: World + ?Sized>(w: &W, b: &Bounds, rep: &mut Report) {
             }
             let end = (idx + chunk).min(frontier.len());
             let t_chunk = Instant::now();
-            let outs: Vec<NodeOut<W>> = if frontier.len() <= 32 {
-                frontier[idx..end].iter().map(|n| expand_wide(w, n, depth)).collect()
+            let outs: Vec<NodeOut<W>> = if w.wide_expand(frontier.len()) {
+                frontier[idx..end].par_iter().map(|n| expand_wide(w, n, depth)).collect()
             } else {
                 frontier[idx..end].par_iter().map(|n| expand(w, n, depth)).collect()
             };
